@@ -35,6 +35,10 @@ def changed(before, after):
             out.append(rel)
         elif b["kind"] == "f" and (b.get("sha"), b["size"], b["mtime_ns"]) != (a.get("sha"), a["size"], a["mtime_ns"]):
             out.append(rel)
+        elif b["kind"] == "f" and b.get("xattr", {}) != a.get("xattr", {}):
+            out.append(rel)                      # metadata counts: an attribute created, changed or removed
+        elif b["kind"] == "f" and b.get("mode") != a.get("mode"):
+            out.append(rel)
         elif b["kind"] == "l" and b["target"] != a["target"]:
             out.append(rel)
     return out
@@ -77,6 +81,18 @@ def run(tier, seed):
             for root in (A, B):
                 ew.mk(root + "/src", sspec); ew.mk(root + "/dst", dspec + extra)
                 os.makedirs(root + "/src", exist_ok=True); os.makedirs(root + "/dst", exist_ok=True)
+            # -X with attributes that differ between source and destination, on files that are up to date and on files that are not:
+            # a dry run must not create, change or remove an attribute either
+            xargs = []
+            if i % 5 == 3 and "--bidirectional" not in state:
+                xargs = ["-X"]
+                for root in (A, B):
+                    for e in sspec:
+                        if e["k"] == "f":
+                            sp, dp = os.path.join(root, "src", e["p"]), os.path.join(root, "dst", e["p"])
+                            os.setxattr(sp, "user.review", b"approved"); os.setxattr(sp, "user.only_src", b"1")
+                            if os.path.isfile(dp) and not os.path.islink(dp):
+                                os.setxattr(dp, "user.review", b"pending"); os.setxattr(dp, "user.only_dst", b"2")
             shutil.rmtree(os.path.join(home, ".cache"), ignore_errors=True); os.makedirs(os.path.join(home, ".cache"))
             bs, bd, bh = world.snapshot(A + "/src"), world.snapshot(A + "/dst"), world.snapshot(home)
             ids = ew.Ids()
@@ -86,7 +102,7 @@ def run(tier, seed):
                 case = obs = None
                 raw = {"rc": rr["rc"], "events": []}
             else:
-                case, obs, raw = ew.run_once(sc, A + "/src", A + "/dst", fl, ids, extra_args=state_cli)
+                case, obs, raw = ew.run_once(sc, A + "/src", A + "/dst", fl, ids, extra_args=state_cli + xargs)
             as_, ad, ah = world.snapshot(A + "/src"), world.snapshot(A + "/dst"), world.snapshot(home)
             wfail = []
             for where, b, a in (("src", bs, as_), ("dst", bd, ad), ("home", bh, ah)):
@@ -99,7 +115,7 @@ def run(tier, seed):
                 fl2 = dict(fl); fl2["dry"] = 0
                 ids2 = ew.Ids()
                 ids2.names, ids2.contents = dict(ids.names), dict(ids.contents)
-                case2, obs2, raw2 = ew.run_once(sc, B + "/src", B + "/dst", fl2, ids2, extra_args=state_cli)
+                case2, obs2, raw2 = ew.run_once(sc, B + "/src", B + "/dst", fl2, ids2, extra_args=state_cli + xargs)
                 kv2 = dict(x.split("=", 1) for x in obs2.split(" "))
                 kv1 = dict(x.split("=", 1) for x in obs.split(" "))
                 if kv2["refused"] != kv1["refused"]:
